@@ -57,6 +57,24 @@ def fam_cyclic_objects(n):
     return {"m.py": s}
 
 
+def fam_cyclic_returned(n):
+    s = "class P:\n    pass\ndef build():\n"
+    for i in range(n + 1):
+        s += f"    n{i} = P()\n"
+    for i in range(n + 1):
+        s += f"    n{i}.next = n{(i + 1) % (n + 1)}\n"
+    s += "    return n0\ndef link(a, b):\n    a.next = b\n    b.next = a\n    return a\nr = build()\nx = P()\ny = P()\nz = link(x, y)\n"
+    s += "a = P()\nb = P()\na.next = b\nb.next = a\nl = []\nl.append(l)\nd = {}\nd['self'] = d\nw = r.next.next\n"
+    return {"m.py": s}
+
+
+def fam_taint_method_calls(n):
+    s = "def src():\n    return 'secret'\ndef snk(v):\n    return None\nclass Box:\n    def __init__(self):\n        self.items = []\n    def push(self, v):\n        self.items.append(v)\n"
+    for i in range(n):
+        s += f"d{i} = src()\nacc{i} = []\nacc{i}.append(d{i})\nbox{i} = Box()\nbox{i}.push(d{i})\nsnk(acc{i})\nsnk(d{i})\n"
+    return {"m.py": s}
+
+
 def fam_nested_loops(n):
     s = "def work(l):\n    t = 0\n"
     for d in range(n):
@@ -106,7 +124,8 @@ def fam_string_repeat(n):
 
 FAMILIES = {
     "recursion": fam_recursion, "mutual-ring": fam_mutual_ring, "self-application": fam_self_application,
-    "cyclic-imports": fam_cyclic_imports, "cyclic-objects": fam_cyclic_objects, "nested-loops": fam_nested_loops,
+    "cyclic-imports": fam_cyclic_imports, "cyclic-objects": fam_cyclic_objects, "cyclic-returned": fam_cyclic_returned,
+    "taint-method-calls": fam_taint_method_calls, "nested-loops": fam_nested_loops,
     "call-chain-1": lambda n: fam_call_chain(n, 1), "call-chain-2": lambda n: fam_call_chain(n, 2), "call-chain-3": lambda n: fam_call_chain(n, 3),
     "many-call-sites": fam_many_call_sites, "hostile-pow": fam_hostile_pow, "hostile-shift": fam_hostile_shift,
     "hostile-var-pow": fam_hostile_var_pow, "long-string": fam_long_string, "deep-parens": fam_deep_parens, "string-repeat": fam_string_repeat,
